@@ -4,7 +4,7 @@ from __future__ import annotations
 import random
 
 from .. import gen, model, sem
-from ..snapshot import CLASS_NAMES, build, pg_from_json, pg_to_json, snap
+from ..snapshot import CLASS_NAMES, DerivationWrong, build, build_case, pg_from_json, pg_to_json, snap
 from . import c09
 
 LEVEL = "exploration"
@@ -67,7 +67,13 @@ def check_case(ctx, case):
     cls, kind, copy = case["cls"], case["kind"], case["copy"]
     m = {a: b for a, b in case["mapping"]}
     rng = random.Random(case["bseed"])
-    g = build(pg, rng=rng)
+    try:
+        g, via = build_case(pg, case["bseed"])
+    except DerivationWrong as e:
+        ctx.violate(f"C11/derived-input-differs/{cls}/{e.via}", f"deriving the input graph: {e}", case)
+        ctx.case()
+        return
+    ctx.count(f"via:{via}")
     uni = tuple(sorted(pg["atoms"], key=repr))[:4] + (424242,)
     if case["queried_first"]:
         for _, thunk in model.queries(g, uni):
